@@ -991,3 +991,12 @@ def request_handlers_run_inside_the_dispatcher_lock(ctx):
     for c in calls:
         ctx.check(in_lock(c, '_lock'), f'{hr.qualname}:handlers run inside the dispatcher lock', c, 'the handler call lies in the _lock region',
                   f'`{src(c)}` runs outside `with self._lock:`: activate / deactivate requests of different connections interleave on the subscription tables', hr)
+
+
+@rule('C08.R12', min_instances=4)
+def updates_are_named_as_they_are_subscribed(ctx):
+    """shared with C05.R5c: broadcast_event finds the subscribers of a parameter scope under the specifier of the message;
+    make_update names value AND error updates `<module>:<exported name>` - an error update named by the attribute name reaches
+    no connection that activated `mod:_aux`, whose last message then no longer equals the node's cache"""
+    from sa.rules import c05
+    c05.update_message_follows_the_error_state(ctx)
